@@ -298,7 +298,10 @@ class FixedNoiseGaussianLikelihood(_GaussianLikelihoodBase):
 
     @noise.setter
     def noise(self, value: Tensor) -> None:
-        self.noise_covar.initialize(noise=value)
+        if not torch.is_tensor(value):
+            value = torch.as_tensor(value).to(self.noise_covar.noise)
+        # the same lower bound as at construction
+        self.noise_covar.initialize(noise=FixedGaussianNoise._lower_bounded(value))
 
     @property
     def second_noise(self) -> Union[float, Tensor]:
